@@ -324,10 +324,9 @@ Definition set_pp (h : heap) (rt : option Z) (pp : option (Z * bool)) (v : optio
   | None => (h, v)
   end.
 
-(* "Replace n with in-order successor" of zix_tree_remove: replace (with parent rp) is unlinked and
-   put in n's place; returns the heap, t->root, to_balance and d_balance *)
-Definition h_replace (h : heap) (rt : option Z) (n rep rp : Z) : heap * option Z * Z * Z :=
-  let pp := match parent h n with Some g => Some (g, ptr_is (left h g) n) | None => None end in
+(* "Replace n with in-order successor" of zix_tree_remove, first half: replace (with parent rp) is
+   unlinked; returns the heap, to_balance and d_balance *)
+Definition h_unlink (h : heap) (n rep rp : Z) : heap * Z * Z :=
   (* Remove replace from parent (replace_p) *)
   let isl := ptr_is (left h rp) rep in
   let dbal := if isl then 1 else -1 in
@@ -335,6 +334,10 @@ Definition h_replace (h : heap) (rt : option Z) (n rep rp : Z) : heap * option Z
   let tb := if rp =? n then rep else rp in            (* if (to_balance == n) to_balance = replace *)
   (* if (replace->right) replace->right->parent = replace->parent; *)
   let h2 := match right h1 rep with Some c => set_parent h1 c (parent h1 rep) | None => h1 end in
+  (h2, tb, dbal).
+
+(* second half: replace takes n's balance and n's place ("Swap node to delete with replace") *)
+Definition h_place (h2 : heap) (rt : option Z) (pp : option (Z * bool)) (n rep : Z) : heap * option Z :=
   let h3 := set_bal h2 rep (bal h2 n) in              (* replace->balance = n->balance *)
   let '(h4, rt4) := set_pp h3 rt pp (Some rep) in     (* *pp = replace / t->root = replace *)
   let h5 := set_parent h4 rep (parent h4 n) in        (* replace->parent = n->parent *)
@@ -342,6 +345,12 @@ Definition h_replace (h : heap) (rt : option Z) (n rep rp : Z) : heap * option Z
   let h7 := match left h6 n with Some c => set_parent h6 c (Some rep) | None => h6 end in
   let h8 := set_right h7 rep (right h7 n) in          (* replace->right = n->right *)
   let h9 := match right h8 n with Some c => set_parent h8 c (Some rep) | None => h8 end in
+  (h9, rt4).
+
+Definition h_replace (h : heap) (rt : option Z) (n rep rp : Z) : heap * option Z * Z * Z :=
+  let pp := match parent h n with Some g => Some (g, ptr_is (left h g) n) | None => None end in
+  let '(h2, tb, dbal) := h_unlink h n rep rp in
+  let '(h9, rt4) := h_place h2 rt pp n rep in
   (h9, rt4, tb, dbal).
 
 (* zix_tree_remove(t, n) for a node n of the heap: new state, destroy log, rotation log *)
